@@ -18,7 +18,7 @@ func init() {
 	register("C23", c23)
 	meta("C23", Meta{
 		Text:      "Decides structural necessary conditions of 'a saved version never changes / rollback restores the last saved version': (1) copy-on-write discipline over the whole bptree package by SSA value-origin analysis — every store into InnerNode/LeafNode/MiniMerkle memory is on a node allocated or cloned in that function, on a parameter all of whose in-package callers pass such a node (transitively), on a child slot the caller filled with a fresh clone by a dominating setChild (remove path), or — saveNode only — behind the `nodeKey == nil` gate; no byte of a stored key is written in place; (2) the functions that require a fresh argument are referenced only by direct calls inside the package; nodeKey/root/lastSaved have a closed writer set; (3) Set/Remove publish the new root only behind the error test of treeInsert/treeRemove, every error return after publication is dominated by `t.poisoned = err`, and Set/Remove/SaveVersion test `poisoned` before anything else; (4) SaveVersion moves lastSaved/version only behind a successful Commit (or adopts the persisted root on the idempotent path), its deferred closure discards the batch unless committed and poisons on error; Rollback assigns root from lastSaved and clears the batch; loadVersionDiscovered performs no session write before its last fallible read; (5) parallel arrays — InnerNode.childNodes/children/childHashes/childSizes and LeafNode.keys/valueHashes/valueKeys are indexed by the same slot: in every function of the package each element move or clear of one array is mirrored on the others with the same destination and the same source index (indices normalised to linear forms after resolving single-definition locals, conversions and NumChildren()); a size or hash stored at a slot is computed from the node installed at that slot; subtree sizes are adjusted only at slots the function operated on, by the size stored at the slot the moved child came from; copies into/out of staging arrays use identical offsets across the group, equal lengths, and tile the staging array without gaps; redistributeLeft is the mirror image of redistributeRight (which end is read/written, sign of the parent size adjustments). Level 'other': code-shape conditions, not the ordered-map behaviour.",
-		Note:      "Not covered: ordered-map semantics of search/split/merge/redistribute, iterator ranges, pruning correctness (dual-walk), remaining index arithmetic: loop bounds of the shift loops, the separator-key array of inner nodes (offset index space), agreement between innerInsert's re-wiring of childNodes from the staging array (splitIdx) and splitInner's split point, upper bounds of copies into staging arrays beyond the no-gap test, pointer/ref duality (childNodes vs children) beyond 'the other one is set when this one is cleared'. Index comparison is flow-insensitive (numKeys is assumed not to change between the definition of an index local and its uses in one group of statements). Slot contracts assume nothing overwrites a child slot between the dominating setChild and the mutator call. Fields nodeKey and ndb are bookkeeping (closed writer set checked separately). In-place library effects (sort, slices.Delete) on node arrays are not modelled (none occur today). Thorough tier additionally closes the caller table of the exported node mutators over tm2/..., gno.land/..., gnovm/... (≈60 s).",
+		Note:      "Not covered: ordered-map semantics of search/split/merge/redistribute, iterator positions within a leaf (only what may end a range and the hand-over to the neighbouring leaf are decided), pruning correctness (dual-walk), remaining index arithmetic: loop bounds of the shift loops, the separator-key array of inner nodes (offset index space), agreement between innerInsert's re-wiring of childNodes from the staging array (splitIdx) and splitInner's split point, upper bounds of copies into staging arrays beyond the no-gap test, pointer/ref duality (childNodes vs children) beyond 'the other one is set when this one is cleared'. Index comparison is flow-insensitive (numKeys is assumed not to change between the definition of an index local and its uses in one group of statements). Slot contracts assume nothing overwrites a child slot between the dominating setChild and the mutator call. Fields nodeKey and ndb are bookkeeping (closed writer set checked separately). In-place library effects (sort, slices.Delete) on node arrays are not modelled (none occur today). Thorough tier additionally closes the caller table of the exported node mutators over tm2/..., gno.land/..., gnovm/... (≈60 s).",
 		Technique: "go/ssa value-origin (freshness) analysis with interprocedural parameter and child-slot contracts; go/cfg dominance and reachability; who-may-write tables",
 		Ref:       "DESIGN.md §2 C23, §9 (R-FRESH remove path)",
 	})
@@ -49,6 +49,8 @@ func init() {
 		Mutant{"staging-sizes-offset", ins, "\tcopy(allSizes[childIdx+2:], inner.childSizes[childIdx+1:B])", "\tcopy(allSizes[childIdx+2:], inner.childSizes[childIdx+2:B])", "parallel-copy tm2/pkg/bptree.innerInsert InnerNode copy ranges"},
 		Mutant{"size-of-wrong-node", ins, "\t\tinner.childSizes[childIdx+1] = nodeSize(sr.right)", "\t\tinner.childSizes[childIdx+1] = nodeSize(child)", "derived-at-slot tm2/pkg/bptree.innerInsert"},
 		Mutant{"left-appends-over-last-child", rm, "\t\tlnc := l.NumChildren()", "\t\tlnc := l.NumChildren() - 1", "mirror redistributeRight/redistributeLeft InnerNode.childNodes"},
+		Mutant{"seeded-seeklast-gives-up-at-leaf-edge", "tm2/pkg/bptree/iterator.go", "\t\t\t\tif found {\n\t\t\t\t\tit.leafIdx = pos - 1 // end is exclusive\n", "\t\t\t\tif found && pos == 0 {\n\t\t\t\t\tit.valid = false\n\t\t\t\t\treturn\n\t\t\t\t} else if found {\n\t\t\t\t\tit.leafIdx = pos - 1 // end is exclusive\n", "iter-invalidate-reason"},
+		Mutant{"next-stops-at-leaf-end", "tm2/pkg/bptree/iterator.go", "\t\tif it.leafIdx >= int(it.leaf.numKeys) {\n\t\t\tit.nextLeaf()", "\t\tif it.leafIdx >= int(it.leaf.numKeys) {\n\t\t\tit.valid = false", "iter-"},
 		Mutant{"staging-gap", ins, "\tcopy(allVK[pos+1:], leaf.valueKeys[pos:B])", "\tcopy(allVK[pos+2:], leaf.valueKeys[pos:B])", "staging-tiling tm2/pkg/bptree.leafInsert allVK"},
 	)
 }
@@ -85,13 +87,16 @@ func tgBptreeFreshCfg() tgFreshCfg {
 }
 
 func c23(c *engine.Ctx) {
-	c.Explain = "Decides, for tm2/pkg/bptree: (1) R-FRESH — every store into node memory is on a node that is fresh in the storing function, a parameter whose in-package callers all pass fresh nodes, a child slot filled by a dominating setChild(fresh clone), or (saveNode) behind the nodeKey==nil gate; stored key bytes are never written in place; (2) mutators with a freshness contract are only called directly and only inside the package; closed writer sets for nodeKey, MutableTree.root and lastSaved; (3) publish-gated / poison-late-failure / poison-entry in Set, Remove, SaveVersion; (4) SaveVersion ordering (lastSaved/version after a checked Commit, deferred discard+poison), Rollback restores from lastSaved, loadVersionDiscovered writes nothing before its last fallible read. Not covered: ordered-map behaviour, iterator ranges, pruning correctness, index arithmetic of split/merge."
+	c.Explain = "Decides, for tm2/pkg/bptree: (1) R-FRESH — every store into node memory is on a node that is fresh in the storing function, a parameter whose in-package callers all pass fresh nodes, a child slot filled by a dominating setChild(fresh clone), or (saveNode) behind the nodeKey==nil gate; stored key bytes are never written in place; (2) mutators with a freshness contract are only called directly and only inside the package; closed writer sets for nodeKey, MutableTree.root and lastSaved; (3) publish-gated / poison-late-failure / poison-entry in Set, Remove, SaveVersion; (4) SaveVersion ordering (lastSaved/version after a checked Commit, deferred discard+poison), Rollback restores from lastSaved, loadVersionDiscovered writes nothing before its last fallible read; (5) iterator — every `it.valid = false` sits under a reason that ends a range (failed load, bound comparison, absent root, unknown node type, stack exhausted, Close), and seekFirst/seekLast/Next hand over to nextLeaf/prevLeaf when the position runs off the leaf. Not covered: ordered-map behaviour, iterator positions within a leaf, pruning correctness, index arithmetic of split/merge."
 	p := c.Load("tm2/pkg/bptree", "tm2/pkg/store/bptree")
 	if p == nil {
 		return
 	}
 	const P = "tm2/pkg/bptree."
 	const T = P + "(*MutableTree)."
+
+	// ---- (5) iterator: what may end a range
+	c23Iter(c, p)
 
 	// ---- (1) R-FRESH
 	a := tgNewFresh(c, p, tgBptreeFreshCfg())
